@@ -17,10 +17,23 @@ contract(
         "relative_path is not None or len(self.child_histories) == 0",
         "len(self.child_histories) == 0 or (self.asc_mhl_path is not None and self.asc_mhl_path != '')",
     ],
-    loops={0: Loop(invariant=["dir_path is not None"])},
+    # ghost: how many times the path has been shortened; the candidate is the k-fold parent of the path
+    ghost_init={"k": ("int", "0")},
+    ghost_updates={"dir_path = os.path.dirname(dir_path)": [("k", "k + 1")]},
+    loops={0: Loop(invariant=["dir_path is not None", "k >= 0 and dir_path == p_dn(relative_path, k)",
+                              "all(not (p_dn(relative_path, t) in self.child_history_mappings) for t in range(k))"],
+                   lemmas=["L_dn(relative_path, k)"])},
     lemmas={"before: history = self.child_history_mappings[dir_path]": ["L_member(self.child_history_mappings.keys(), dir_path)"]},
+    entry_lemmas=["L_dn(relative_path, 0)"],
     ensures=[
         "len(self.child_histories) > 0 or (result[0] == self and result[1] == relative_path)",
+        # routing = the registered history of the NEAREST ancestor (the path itself, its folder, that folder's folder, ...)
+        # that is registered; this history if none is
+        "len(self.child_histories) == 0 or result[0] == self or (k >= 0 and p_dn(relative_path, k) in self.child_history_mappings"
+        " and result[0] == self.child_history_mappings[p_dn(relative_path, k)]"
+        " and all(not (p_dn(relative_path, t) in self.child_history_mappings) for t in range(k)))",
+        "len(self.child_histories) == 0 or result[0] != self or all(not (p_dn(relative_path, t) in self.child_history_mappings) for t in range(k))",
+        "len(self.child_histories) == 0 or result[0] != self or any(h == self for h in self.child_history_mappings.values()) or len(p_dn(relative_path, k)) == 0",
     ],
     props=["C08", "C04", "C02"],
 )
